@@ -213,6 +213,22 @@ contains
        call sim_phase(1); dv = arr_new_alloc(int(a, C_INT)); call sim_phase(0)
        sz = size(dv); sm = 0; if (sz > 0) sm = int(sum(dv) * 2)
        call res_arr(sz, sm); deallocate(dv)
+    case ("arr_pat")
+       call sim_phase(1); ip => arr_new_pat(int(a, C_INT), caps(b)); call sim_phase(0)
+       sz = size(ip); sm = 0; if (sz > 0) sm = sum(ip)
+       call res_arr(sz, sm); nullify(ip)
+    case ("arr_sum")
+       allocate(iv(a)); do i = 1, a; iv(i) = 3 * i; end do
+       call sim_phase(1); r = arr_sum(iv); call sim_phase(0); call res_int(int(r)); deallocate(iv)
+    case ("char_grow")
+       allocate(character(len=a) :: buf); buf = text(1:min(a, len(text)))
+       call sim_phase(1); call char_grow(buf); call sim_phase(0); call res_str(buf); deallocate(buf)
+    case ("ref_item")
+       call sim_phase(1); h(a) = ref_item(); call sim_phase(0); call res_none()
+    case ("vec_ret_d")
+       call sim_phase(1); dv = vec_ret_d(int(a, C_INT)); call sim_phase(0)
+       sz = size(dv); sm = 0; if (sz > 0) sm = int(sum(dv) * 4)
+       call res_arr(sz, sm); deallocate(dv)
     case ("cap_delete")
        call sim_phase(1); call caps(a)%delete(); call sim_phase(0); call res_none()
     case ("cap_scope")
